@@ -14,7 +14,9 @@
 (*        DW_AT_sibling x trailing null padding x (header variant,         *)
 (*        abbreviation code scheme) in Combos.  Every stream is emitted    *)
 (*        once (bytes + expected header, raw reading, entry(offset),       *)
-(*        abbreviation lookups).  For combos in FullCombos the *complete   *)
+(*        abbreviation lookups; forests with >= RestrictN entries only     *)
+(*        under the FullCombos, without padding).  For FullCombos the      *)
+(*        *complete                                                        *)
 (*        state graph* of EntriesCursor and EntriesTree is explored from   *)
 (*        every start entry: every reachable state x every call, i.e. all  *)
 (*        call scripts of any length up to state equivalence.  Each        *)
@@ -106,7 +108,8 @@ AbCase(cs) ==
 (* combos selectable from a cfg (cfg files cannot express tuples) *)
 CombosQuick == {<<1, "seq">>, <<2, "huge">>, <<3, "perm">>, <<6, "sparse">>}
 FullQuick   == <<<<1, "seq">>, <<2, "huge">>>>
-CombosThorough == {<<i, sc>> : i \in 1..9, sc \in {"seq", "perm", "sparse", "huge"}}
+CombosThorough == {<<1, "seq">>, <<1, "huge">>, <<2, "huge">>, <<3, "perm">>, <<4, "sparse">>, <<4, "seq">>, <<5, "seq">>,
+                   <<6, "sparse">>, <<7, "huge">>, <<7, "perm">>, <<8, "perm">>, <<9, "sparse">>}
 FullThorough   == <<<<1, "seq">>, <<2, "huge">>, <<3, "perm">>, <<6, "sparse">>>>
 CombosTiny == {<<1, "seq">>}
 FullTiny == <<<<1, "seq">>>>
@@ -142,7 +145,8 @@ Finish == /\ s.ph = "build" /\ Len(s.F) >= 1
           (* Forests with >= RestrictN entries: no padding, g = FALSE.                       *)
           /\ \E sibs \in [{v \in DOMAIN s.F : s.F[v].hc} -> BOOLEAN] :
              \E g \in (IF Len(s.F) >= RestrictN THEN {FALSE} ELSE BOOLEAN) :
-             \E pad \in (IF Len(s.F) >= RestrictN THEN {0} ELSE Pads) : \E cb \in Combos :
+             \E pad \in (IF Len(s.F) >= RestrictN THEN {0} ELSE Pads) :
+             \E cb \in (IF Len(s.F) >= RestrictN THEN {FullCombos[i] : i \in DOMAIN FullCombos} ELSE Combos) :
                LET F == [v \in DOMAIN s.F |-> [s.F[v] EXCEPT !.sib = IF s.F[v].hc THEN sibs[v] ELSE g]]
                    st == MkStream(F, pad, HV[cb[1]], cb[2])
                    sid == <<[v \in DOMAIN F |-> F[v].par], [v \in DOMAIN F |-> IF F[v].hc THEN 1 ELSE 0],
